@@ -338,6 +338,10 @@ type CheckResult struct {
 func runCheck(w *World, spec *PropSpec, tier string, workers int, solverKind string) *CheckResult {
 	start := time.Now()
 	jobs := spec.Jobs(tier)
+	budget := 25 * time.Minute
+	if tier == "thorough" {
+		budget = 6 * time.Hour
+	}
 	cr := &CheckResult{Prop: spec.ID, Tier: tier, LoadTime: w.loadTime}
 	results := make([]*JobResult, len(jobs))
 	var wg sync.WaitGroup
@@ -361,6 +365,15 @@ func runCheck(w *World, spec *PropSpec, tier string, workers int, solverKind str
 			}
 			if j.Timeout == 0 {
 				j.Timeout = 10 * time.Minute
+			}
+			if tier != "thorough" && j.Timeout > 6*time.Minute {
+				j.Timeout = 6 * time.Minute // quick tier: no job runs longer than this on the unchanged tree
+			}
+			if time.Since(start) > budget {
+				r := newJobResult(j)
+				r.Inconclusive = append(r.Inconclusive, "not run: the check's time budget was exhausted by earlier jobs")
+				results[i] = r
+				return
 			}
 			results[i] = runJob(w, j, solverKind)
 		}(i)
